@@ -20,7 +20,7 @@ PROPERTIES = ["C03"]
 CLAUSE_PROPS = {"raw-exception": "C07", "error-code": "C03", "rowcount": "C04", "status-row": "C04"}
 
 SPEC = {
-    "runs": {"quick": 700, "thorough": 20000},
+    "runs": {"quick": 1300, "thorough": 20000},
     "wall": {"quick": 600, "thorough": 7200},
     "chunk": 10,
     "level": "exploration",
@@ -48,7 +48,7 @@ HAZARDS = ["use_db_with_schema", "use_schema_no_db", "foreign_drop_current_schem
 
 
 def gen(rng: Any, prop: str, tier: str) -> dict[str, Any]:
-    hazards = {h: rng.random() < 0.04 for h in HAZARDS}
+    hazards = {h: rng.random() < 0.07 for h in HAZARDS}
     k = rng.choice([2, 2, 3])
     n_ops = rng.randint(8, 40)
     g = Gen(rng, Model(), vary_spelling=rng.random() < 0.7)
@@ -174,4 +174,6 @@ def _focus(op: dict[str, Any], pred: dict[str, Any]) -> bool:
 
 
 def run(case: dict[str, Any]) -> dict[str, Any]:
-    return run_serial_case(case, Oracle("C03", CLAUSE_PROPS), focus=_focus)
+    # hazards whose listed finding may fire first: keep looking at what happens afterwards (model-free)
+    return run_serial_case(case, Oracle("C03", CLAUSE_PROPS), focus=_focus,
+                           tolerate=("ctx-attrs/use_db/own/", "ctx-attrs/drop_schema/other/", "error-code/use_schema/q0/want=90105", "error-code/ctas/second-table/"))
